@@ -1266,6 +1266,62 @@ func AtomCallsUnexportedHelper(atom string) bool {
 	return h != nil && !exportedFunc(h)
 }
 
+// AtomHelper returns the unexported repository function whose result the atom tests (see
+// AtomCallsUnexportedHelper), or nil.
+func AtomHelper(atom string) *ssa.Function {
+	info, ok := atomReg[atom]
+	if !ok {
+		return nil
+	}
+	v := info.V
+	if info.NilOf != nil {
+		v = info.NilOf
+	} else if bo, isB := v.(*ssa.BinOp); isB && (bo.Op == token.EQL || bo.Op == token.NEQ) {
+		switch {
+		case isNilConst(bo.Y):
+			v = bo.X
+		case isNilConst(bo.X):
+			v = bo.Y
+		default:
+			return nil
+		}
+	}
+	c, _ := CallOf(Origin(v))
+	cc, isCall := c.(*ssa.Call)
+	if !isCall {
+		return nil
+	}
+	h := Followable(cc, nil)
+	if h == nil || exportedFunc(h) {
+		return nil
+	}
+	return h
+}
+
+// AtomCall returns the call whose result the atom tests (directly or compared with nil), or nil.
+func AtomCall(atom string) ssa.CallInstruction {
+	info, ok := atomReg[atom]
+	if !ok {
+		return nil
+	}
+	v := info.V
+	if info.NilOf != nil {
+		v = info.NilOf
+	} else if bo, isB := v.(*ssa.BinOp); isB && (bo.Op == token.EQL || bo.Op == token.NEQ) {
+		switch {
+		case isNilConst(bo.Y):
+			v = bo.X
+		case isNilConst(bo.X):
+			v = bo.Y
+		}
+	}
+	if v == nil {
+		return nil
+	}
+	c, _ := CallOf(Origin(v))
+	return c
+}
+
 // LastIf is the exported form of lastIf.
 func LastIf(b *ssa.BasicBlock) (*ssa.If, bool) { return lastIf(b) }
 
